@@ -5,7 +5,7 @@
    fresh argument slice).  No proofs in this file.
 
    Go -> model
-     centres            fixed set: local 0,1,2 (0 starts direct, 1,2 start in channel mode),
+     centres            fixed set: local 0,1,2,3 (0 starts direct, 1,2,3 start in channel mode),
                         light 10,11; any other index: the action is not applicable (VNop)
      event names, args  Z tokens (the harness maps names injectively to strings)
      listener id        token l = 1,2,3,... in creation order (the harness maps the uint64 the
@@ -57,6 +57,7 @@ Inductive op :=
 | ODef (pid : Z) (prog : list action)   (* (re)define callback program pid *)
 | OAct (a : action)                     (* the owner goroutine performs a, outside any listener *)
 | ODrain (c k : Z)                      (* owner: up to k times { e, ok := <-chan; DoEvent(e) } *)
+| ODiscard (c k : Z)                    (* owner: receive up to k events and throw them away *)
 | OSetChan (c : Z) (b : bool).          (* SetLocalUseChan *)
 
 (* ---------------------------------------------------------------- trace events *)
@@ -73,8 +74,10 @@ Inductive ev :=
 | VRet (l : Z) (kept : bool)                       (* l returns; its arguments are unchanged *)
 | VEnd (p : Z)
 | VEnq (c n : Z) (args : list Z)                   (* channel-mode Publish about to send *)
-| VGPub (n : Z) (args : list Z) (k : Z) (qlens : list Z)  (* after k global publishes: len of queue 0,1,2 *)
+| VGPub (n : Z) (args : list Z) (k : Z) (qlens : list Z)  (* after k global publishes: len of queue 0..3 *)
 | VDeq (c n : Z) (args : list Z)                   (* owner received this event from c's queue *)
+| VDrop (c : Z) (runs : list (Z * (Z * list Z)))   (* owner received these events, in this order,
+                                                      written as maximal runs (count, event) *)
 | VNop                                             (* action not applicable to that centre *)
 | VDeadlock.                                       (* the call never returned (watchdog) *)
 
@@ -95,9 +98,9 @@ Record view := VW {
 
 Definition view0 : view := VW [] 1 [] [] 1 [] false false.
 
-Definition is_local (c : Z) : bool := (0 <=? c) && (c <=? 2).
+Definition is_local (c : Z) : bool := (0 <=? c) && (c <=? 3).
 Definition is_light (c : Z) : bool := (10 <=? c) && (c <=? 11).
-Definition local_centres : list Z := [0; 1; 2].
+Definition local_centres : list Z := [0; 1; 2; 3].
 
 Definition at_cn (c n : Z) (i : linfo) : bool := (i_c i =? c) && (i_n i =? n).
 Definition members (w : view) (c n : Z) : list linfo := filter (at_cn c n) (live w).
@@ -116,6 +119,23 @@ Definition set_lastfull (w : view) (b : bool) : view :=
   VW (live w) (fresh w) (cleared w) (frames w) (npub w) (queues w) b (dead w).
 
 Definition repeat_ev (x : Z * list Z) (k : Z) : queue := repeat x (Z.to_nat k).
+
+(* run-length form of a list of events (keeps the trace of a 999-event queue small) *)
+Definition qev_eqb (x y : Z * list Z) : bool := (fst x =? fst y) && zlist_eqb (snd x) (snd y).
+Fixpoint rle (q : queue) : list (Z * (Z * list Z)) :=
+  match q with
+  | [] => []
+  | x :: r =>
+      match rle r with
+      | (k, y) :: t => if qev_eqb x y then (k + 1, y) :: t else (1, x) :: (k, y) :: t
+      | [] => [(1, x)]
+      end
+  end.
+Fixpoint expand (l : list (Z * (Z * list Z))) : queue :=
+  match l with
+  | [] => []
+  | (k, x) :: t => repeat_ev x k ++ expand t
+  end.
 
 (* after a global publication the observed queue lengths say how many copies each centre got *)
 Fixpoint grow (w : view) (x : Z * list Z) (cs qlens : list Z) : view :=
@@ -147,6 +167,7 @@ Definition vstep0 (w : view) (e : ev) : view :=
       if qlen w c <? QCAP then set_queue w c (queue_of w c ++ [(n, a)]) else w
   | VGPub n a _ qlens => grow w (n, a) local_centres qlens
   | VDeq c _ _ => set_queue w c (tl (queue_of w c))
+  | VDrop c runs => set_queue w c (skipn (length (expand runs)) (queue_of w c))
   | VDeadlock => VW (live w) (fresh w) (cleared w) (frames w) (npub w) (queues w) false true
   | VOp | VSubFail | VAmbig | VRet _ _ | VNop => w
   end.
@@ -167,7 +188,7 @@ Record st := ST {
   guide : list ev;             (* rest of the order oracle *)
   log : list ev }.             (* emitted trace, newest first *)
 
-Definition init (g : list ev) : st := ST view0 [] [1; 2] [] [] g [].
+Definition init (g : list ev) : st := ST view0 [] [1; 2; 3] [] [] g [].
 
 Definition set_vw (s : st) (w : view) : st :=
   ST w (attrs s) (chanm s) (greg s) (progs s) (guide s) (log s).
@@ -370,6 +391,9 @@ Definition exec_op (s : st) (o : op) : st :=
   | ODef pid prog => set_progs s0 (aset pid prog (progs s0))
   | OAct a => exec_act (invoke DEPTH) None a s0
   | ODrain c k => if is_local c then drain (Z.to_nat (Z.max 0 (Z.min k 50))) c s0 else emit VNop s0
+  | ODiscard c k =>
+      if is_local c then emit (VDrop c (rle (firstn (Z.to_nat (clampk k)) (queue_of (vw s0) c)))) s0
+      else emit VNop s0
   | OSetChan c b =>
       if is_local c then
         set_chanm s0 (if b then c :: filter (fun x => negb (x =? c)) (chanm s0)
